@@ -1,5 +1,6 @@
 import VelaVerif.Lemmas.SrcNumericUtil
 import VelaVerif.Model.NpuAccess
+import VelaVerif.Gen.SrcRegisterCommandStreamUtil
 /-!
 # C04 (source tie) — translated `numeric_util.round_up` / `round_up_divide` / `overlaps` equal the
 helpers of `Model/NpuAccess.lean`
@@ -11,7 +12,7 @@ floor division and Lean's `Int` division differ, and for 0 Python raises — hen
 -/
 namespace VelaVerif.Props.C04Src
 open VelaVerif VelaVerif.PyRt VelaVerif.NpuAccess
-open VelaVerif.Gen.SrcNumericUtil
+open VelaVerif.Gen.SrcNumericUtil VelaVerif.Gen.SrcRegisterCommandStreamUtil
 
 /-- `numeric_util.round_up(a, b)`, all integers `a`, positive `b` -/
 theorem src_round_up_eq_model (a b : Int) (hb : 0 < b) :
@@ -37,5 +38,19 @@ theorem src_round_up_negative_divisor_witness :
 theorem src_overlaps_eq (s1 e1 s2 e2 : Int) :
     overlaps (.py s1) (.py e1) (.py s2) (.py e2) = .ok (decide (s1 < e2) && decide (s2 < e1)) :=
   SrcNumericUtil.overlaps_py s1 e1 s2 e2
+
+/-- `register_command_stream_util.get_address(fm, strides, y, x, c)`, every feature map, strides and
+    coordinate (tile selection, brick arithmetic): the model's address.  `fm.layout == NpuLayout.NHCWB16` /
+    `== NpuLayout.NHWC` are boolean attributes of the record (`nhcwb16`, `!nhcwb16`: the two layouts that
+    exist), `fm.tiles.addresses` is the list of the four tile base addresses. -/
+theorem src_get_address_eq_model (fm : FMap) (strides : Shape3) (y x c : Int) :
+    get_address (.py y) (.py x) (.py c) (.py fm.elemBytes) (.py fm.tiles.height0) (.py fm.tiles.height1)
+        (.py fm.tiles.width0) (.py strides.depth) (.py strides.height) (.py strides.width)
+        [.py fm.tiles.a0, .py fm.tiles.a1, .py fm.tiles.a2, .py fm.tiles.a3] fm.nhcwb16 (!fm.nhcwb16) =
+      .ok (.py (getAddress fm strides y x c)) := by
+  unfold getAddress
+  cases hl : fm.nhcwb16 <;>
+  · py_exec [get_address, pyIndex, if_pos, if_neg, List.getElem?_cons_zero, List.getElem?_cons_succ]
+    py_finish
 
 end VelaVerif.Props.C04Src
